@@ -729,6 +729,36 @@ fn c05(args: &Args, rep: &mut Report, w: &Watch) {
             c05_one(rep, w, &c, cap, "cyclic-twins");
             continue;
         }
+        if i % 16 == 5 {
+            // unions that share a NAMED member (one memoised atom on both sides of an intersection):
+            // (X | Y) & (X | W) against X | W, X | (Y & W), X, Y - with names in every sort order
+            let names = rng.shuffle(&["A", "B", "C", "M", "Z"]);
+            let shapes: Vec<Runtype> = vec![
+                tgen::obj(vec![("a", Runtype::string(), false)], None),
+                tgen::obj(vec![("b", Runtype::number(), false), ("o", Runtype::null(), true)], None),
+                tgen::obj(vec![("c", tgen::lit_n(1), false)], None),
+                Runtype::tuple(vec![Runtype::string(), Runtype::number()], None),
+                Runtype::tuple(vec![Runtype::boolean()], Some(Box::new(Runtype::string()))),
+                Runtype::array(Box::new(Runtype::number())),
+            ];
+            let picked = rng.shuffle(&shapes);
+            let defs3: Vec<NamedSchema> = (0..3).map(|k| NamedSchema { name: tgen::uuid(names[k]), schema: picked[k].clone() }).collect();
+            let r = |k: usize| Runtype::ref_(tgen::uuid(names[k]));
+            let (x, y, wv) = (r(0), r(1), r(2));
+            let left = tgen::raw_all_of(vec![tgen::raw_any_of(vec![x.clone(), y.clone()]), tgen::raw_any_of(vec![x.clone(), wv.clone()])]);
+            let rights = vec![
+                tgen::raw_any_of(vec![x.clone(), wv.clone()]),
+                tgen::raw_any_of(vec![x.clone(), tgen::raw_all_of(vec![y.clone(), wv.clone()])]),
+                x.clone(),
+                y.clone(),
+                tgen::raw_any_of(vec![x.clone(), y.clone()]),
+            ];
+            let right = rng.pick(&rights).clone();
+            let (s_ty, t_ty) = if rng.chance(1, 2) { (left, right) } else { (right, left) };
+            let c = Case { s: s_ty, t: t_ty, defs: defs3, t_first: rng.chance(1, 2) };
+            c05_one(rep, w, &c, cap, "shared-named-member");
+            continue;
+        }
         let (s, t, stream) = match mode {
             10..=12 => {
                 // covering problems: S is a product of small literal sets (tuple slots or object
